@@ -22,9 +22,11 @@ RULE = (
     "and equal scales with different nf; nf 3-6; operator AND error tensors of shape (14,k,14,k), k 2-6, random normal / "
     "sparse (compressible) / special values (nan, inf, -0.0, subnormals) / identity-like, C-ordered, Fortran-ordered or "
     "non-contiguous views; written with EKO.create(path).load_cards(..).build(), eko[ep] = Operator(op, err), close. A "
-    "minority of cases is a full tiny LO solve (eko.solve, 2-4 grid points, 1-3 targets, integer and float mu). A rare "
-    "class stores one point under a numpy.float64 scale (compared like any other point when the Python reader accepts the "
-    "archive; discarded and counted when the Python reader refuses its own header). Oracle: the Rust reader opens the archive, lists the same (scale, nf) set as "
+    "minority of cases is a full tiny LO solve (eko.solve, 2-4 grid points, 1-3 targets, integer and float mu). In about "
+    "45% of the store cases the evolution points are handed to the store as numpy scalars (as a grid built from numpy "
+    "arrays would): scale numpy.float64, or numpy.int64 when integer-valued, and / or nf numpy.int64 / numpy.int32, for "
+    "all points or a random subset (compared like any other point; discarded and counted only if the Python reader "
+    "refuses its own header). Oracle: the Rust reader opens the archive, lists the same (scale, nf) set as "
     "EKO.read, has_operator is true and load_operator returns operator and error tensors with the same shape and "
     "identical bytes (logical row-major order) for every point; a lookup displaced by 0.4 x the documented tolerance "
     "finds the same operator. Non-trivial = at least 2 points and at least one integer-valued scale; distinct by (mode, "
@@ -110,6 +112,18 @@ def strategy(tier):
         elif extra == "int-forced":
             pts.insert(0, [draw(st.one_of(int_float, py_int)), draw(nfs)])
         pts = _distinct(pts)[:4]
+        # how each key is handed to the store: python builtins or numpy scalars (grids built from numpy arrays)
+        style = draw(st.sampled_from(["py", "py", "py", "py", "py", "np-all", "np-all", "np-nf", "np-mixed"]))
+        nptypes = []
+        for _ in pts:
+            if style == "py":
+                nptypes.append(["py", "py"])
+            elif style == "np-all":
+                nptypes.append([draw(st.sampled_from(["f8", "i8"])), draw(st.sampled_from(["i8", "i4"]))])
+            elif style == "np-nf":
+                nptypes.append(["py", draw(st.sampled_from(["i8", "i4"]))])
+            else:
+                nptypes.append([draw(st.sampled_from(["py", "f8", "i8"])), draw(st.sampled_from(["py", "i8", "i4"]))])
         return dict(
             mode="store",
             k=draw(st.integers(2, 6)),
@@ -117,7 +131,7 @@ def strategy(tier):
             seed=draw(st.integers(0, 2**32 - 1)),
             tensor=draw(st.sampled_from(["normal", "normal", "sparse", "special", "identity"])),
             layout=draw(st.sampled_from(["C", "C", "C", "F", "view"])),
-            npkey=draw(st.integers(0, 19)) == 0,
+            nptypes=nptypes,
         )
 
     @st.composite
@@ -186,10 +200,15 @@ def write_store(case, path):
     th, opc = ru.cards(dict(xgrid=xgrid, mugrid=[[10.0, 4]]))
     with EKO.create(path).load_cards(th, opc).build() as eko:
         for i, (s, nf) in enumerate(case["points"]):
-            if case["npkey"] and i == 0:
+            st_, nt_ = case["nptypes"][i]
+            if st_ == "i8" and float(s).is_integer():
+                s = np.int64(int(s))
+            elif st_ in ("f8", "i8"):
                 s = np.float64(s)
+            if nt_ != "py":
+                nf = {"i8": np.int64, "i4": np.int32}[nt_](nf)
             op, err = tensors(case, i)
-            eko[(s, int(nf))] = Operator(operator=op, error=err)
+            eko[(s, nf)] = Operator(operator=op, error=err)  # keys exactly as typed above
 
 
 def write_solve(case, path):
@@ -247,11 +266,13 @@ def check_case(case):
             for i, a in enumerate(pts) for b in pts[i + 1:]
         )
         same = any(float(a[0]) == float(b[0]) and a[1] != b[1] for i, a in enumerate(pts) for b in pts[i + 1:])
-        res.key = ["store", case["k"], len(pts), kinds, near, same, case["tensor"], case["layout"], case["npkey"]]
+        np_scale = sorted({("i8" if t[0] == "i8" and float(p[0]).is_integer() else "f8") for p, t in zip(pts, case["nptypes"]) if t[0] != "py"})
+        np_nf = sorted({t[1] for t in case["nptypes"] if t[1] != "py"})
+        res.key = ["store", case["k"], len(pts), kinds, near, same, case["tensor"], case["layout"], np_scale, np_nf]
         res.classes = [
             "mode=store", f"k={case['k']}", f"points={len(pts)}", f"tensor={case['tensor']}", f"layout={case['layout']}",
-            f"near-pair={near}", f"same-scale-other-nf={same}", f"numpy-scalar-key={case['npkey']}",
-        ] + [f"scale-kind={x}" for x in kinds]
+            f"near-pair={near}", f"same-scale-other-nf={same}", f"numpy-keys={bool(np_scale or np_nf)}",
+        ] + [f"numpy-scale={x}" for x in np_scale] + [f"numpy-nf={x}" for x in np_nf] + [f"scale-kind={x}" for x in kinds]
         res.nontrivial = len(pts) >= 2 and any(x != "float" for x in kinds)
     else:
         mus = case["mugrid"]
@@ -281,7 +302,7 @@ def check_case(case):
         try:
             ref = read_python(archive)
         except Exception as e:  # noqa: BLE001
-            if mode == "store" and case["npkey"]:
+            if mode == "store" and any(t != ["py", "py"] for t in case["nptypes"]):
                 # the header of a numpy-scalar key is not re-readable by the Python reader itself (decided by C36/C40): there
                 # is no reference to compare the Rust reader with
                 return CaseResult(discarded=f"python reader refuses its own numpy-scalar header ({type(e).__name__})")
